@@ -152,13 +152,14 @@ def run (j : Json) : Except String Json := do
   if !prog.initAllocates && modelObs.results.any (fun r => match r with | .err .. => true | _ => false) then
     return Json.mkObj [("skip", true), ("why", "shared init and a failing operator call")]
   let agree := modelObs == implObs
-  let holds := checkC15 env heap prog targets implObs
-  let modelHolds := checkC15 env heap prog targets modelObs
+  -- the property is evaluated in the documented environment (`specEnv`), on the implementation's observation
+  let holds := checkC15 specEnv heap prog targets implObs
+  let modelHolds := checkC15 specEnv heap prog targets modelObs
   let tag := match modelObs.results with | r :: _ => rTag r | [] => "no-eval"
   return Json.mkObj [("agree", agree), ("holds", holds), ("model_holds", modelHolds),
     ("wf", WF env && WFSrc genSrc), ("hyp_init_allocates", prog.initAllocates),
     ("model", obsToJson modelObs),
-    ("expected", Json.arr ((targets.map (expectR env heap prog)).map rToJson).toArray),
+    ("expected", Json.arr ((targets.map (expectR specEnv heap prog)).map rToJson).toArray),
     ("branch", s!"{progTag prog}:{tag}")]
 
 end Glom.C15.Driver
